@@ -745,7 +745,7 @@ def _cancel(st, store, j, by="me"):
     j["phase"] = "cancelled"
     j["end_seq"] = store.journal({"kind": "event", "event": "cancel", "id": j["id"], "name": j["name"]})
     if not st["config"].get("acct_lag"):
-        j["acct"] = {"phase": "cancelled", "exit": None, "code": None, "by": "1000" if st["config"].get("cancel_by") else None}
+        j["acct"] = {"phase": "cancelled", "exit": None, "code": None, "by": "1000" if (st["config"].get("cancel_by") or int(j["id"]) % 2 == 0) else None}
 
 
 def cmd_scancel(st, argv, stdin, cwd, store):
